@@ -119,6 +119,13 @@ class ListProxy(list, ContainerValueMixin):
                 cfg._parent = self.cfg
                 cfg.load_tree(value)  # type: ignore
             elif isinstance(value, Config):
+                if isinstance(self.item_field, Schema):
+                    expected = self.item_field
+                else:
+                    expected = self.item_field.__schema__  # type: ignore
+                if value._schema is not expected:
+                    # its fields were never validated against the fields of this list's items
+                    raise ValueError("configuration was built from a different schema")
                 previous = (value._parent, value._key, value._container)
                 value._parent = self.cfg
                 value._key = self.list_field._key
